@@ -157,6 +157,8 @@ def sem_validate(b, runnable):
                 dis.append((c, "SEM-SRC: the source semantics Sem/Src says " + src, "reference interpreter and /bin/bash say " + want))
         if ok_src and ok_sh:
             SEM_STATS["both"] += 1
-            if src != sh:
+            # the theorem relates the two models on its fragment only; outside it (e.g. a user variable spelled like a register of
+            # the compiler, which the bash model follows faithfully) they may differ - that is what the property's oracle is for
+            if src != sh and flag in ("F2", "F12"):
                 dis.append((c, "SEM-THM: Sem/Src says " + src, "Sem/Bash says " + sh))
     return dis
